@@ -45,6 +45,15 @@ def range_fixes(cfg, tier, seed):
     out = [dict(range=v, range0=v) for v in vals]
     return ([None] if sb <= 16 else []) + out
 
+def range_fixes_small(cfg, tier, seed):
+    """for the (path-rich) kernels that start from an Inverted state: the quick tier concretises `range` to
+    boundary values only (fully symbolic range and the large 64-bit ranges cost 200-500 s each: thorough tier)"""
+    if tier != 'quick': return range_fixes(cfg, tier, seed)
+    wb, sb, p = cfg_bits(cfg)
+    lo = 1 << (sb - wb); mx = (1 << sb) - 1
+    vals = (lo, lo + 1, mx, lo + ((seed + 1) * 2654435761) % (mx - lo)) if sb < 32 else (lo, lo + 1)
+    return [dict(range=v, range0=v) for v in vals]
+
 def cuts_fixes(cfg, tier, seed):
     """concrete cut points (c1, c2) of the 3-symbol model at wide configurations: probabilities and cumulatives
     become constants, so every multiplication/division in the step is by a constant (linear for the int-blasting
@@ -113,7 +122,7 @@ INV_SOFT = [20, 21, 22, 23]
 PROPS['C02'] = dict(
     obligations=[
         L('c02_rt_k1', 'k_c02_rt_k1_{cfg}', RQ, RALL, fixes=range_fixes),
-        L('c02_rt_from_inverted', 'k_c02_rt_inv_k1_{cfg}', ['u8_u16_p4', 'u32_u64_p24'], ['u8_u16_p4', 'u8_u16_p8', 'u16_u32_p12', 'u16_u32_p16', 'u32_u64_p24', 'u32_u64_p32'], fixes=range_fixes),
+        L('c02_rt_from_inverted', 'k_c02_rt_inv_k1_{cfg}', ['u8_u16_p4', 'u32_u64_p24'], ['u8_u16_p4', 'u8_u16_p8', 'u16_u32_p12', 'u16_u32_p16', 'u32_u64_p24', 'u32_u64_p32'], fixes=range_fixes_small),
         L('c02_rt_k2', 'k_c02_rt_k2_{cfg}', [], ['u8_u16_p4', 'u8_u16_p8', 'u8_u32_p8', 'u16_u32_p12', 'u32_u64_p24'], cap=dict(quick=90, thorough=600), explore_cap=dict(quick=300, thorough=3000)),
         L('c02_rt_k3', 'k_c02_rt_k3_{cfg}', [], ['u8_u16_p4', 'u8_u16_p8'], cap=dict(quick=90, thorough=900)),
         L('c02_fresh_k2', 'k_c02_fresh_k2_{cfg}', [], ['u8_u16_p4', 'u8_u16_p8', 'u8_u32_p8', 'u16_u32_p12', 'u32_u64_p24'], cap=dict(quick=90, thorough=600), explore_cap=dict(quick=400, thorough=3000)),
@@ -149,7 +158,7 @@ PROPS['C10'] = dict(
 PROPS['C11'] = dict(
     obligations=[
         L('c11_suffix_k1', 'k_c11_suffix_k1_{cfg}', RQ, ['u8_u16_p4', 'u8_u16_p8', 'u16_u32_p12', 'u16_u32_p16', 'u32_u64_p24', 'u32_u64_p32'], fixes=range_fixes),
-        L('c11_suffix_from_inverted', 'k_c11_suffix_inv_k1_{cfg}', ['u8_u16_p4', 'u32_u64_p24'], ['u8_u16_p4', 'u8_u16_p8', 'u16_u32_p12', 'u16_u32_p16', 'u32_u64_p24', 'u32_u64_p32'], fixes=range_fixes),
+        L('c11_suffix_from_inverted', 'k_c11_suffix_inv_k1_{cfg}', ['u8_u16_p4', 'u32_u64_p24'], ['u8_u16_p4', 'u8_u16_p8', 'u16_u32_p12', 'u16_u32_p16', 'u32_u64_p24', 'u32_u64_p32'], fixes=range_fixes_small),
         L('c11_suffix_k2', 'k_c11_suffix_k2_{cfg}', [], ['u8_u16_p4', 'u8_u16_p8', 'u16_u32_p12', 'u32_u64_p24'], cap=dict(quick=90, thorough=600), explore_cap=dict(quick=300, thorough=3000)),
         K('c11_suffix_k2_u8_u16_p4_cbmc', 'kk', 'c11_suffix_k2_u8_u16_p4', tiers=('thorough',), tt=7200), K('c11_suffix_k1_u8_u16_p4_cbmc', 'kk', 'c11_suffix_k1_u8_u16_p4', tq=900),
         K('c11_suffix_k1_u8_u16_p8_cbmc', 'kk', 'c11_suffix_k1_u8_u16_p8', tiers=('thorough',), tt=3600),
@@ -192,13 +201,16 @@ PROPS['C14'] = dict(
 
 PROPS['C09'] = dict(
     obligations=[
-        L('c09_ans', 'k_c09_ans_{cfg}', ['u8_u16_p4', 'u32_u64_p24'], ['u8_u16_p4', 'u8_u16_p8', 'u16_u32_p12', 'u32_u64_p24'], soft=[20], fixes=cuts_fixes),
+        L('c09_ans_step', 'k_c09_ans_step_{cfg}', ['u8_u16_p4', 'u8_u16_p8', 'u8_u32_p8', 'u16_u32_p12', 'u32_u64_p24', 'u32_u64_p32'], ['u8_u16_p4', 'u8_u16_p8', 'u8_u32_p8', 'u16_u32_p12', 'u32_u64_p24', 'u32_u64_p32']),
+        L('c09_ans', 'k_c09_ans_{cfg}', [], ['u8_u16_p4', 'u8_u16_p8', 'u16_u32_p12', 'u32_u64_p24'], soft=[20], fixes=cuts_fixes),
+        K('c09_ans_observational_cbmc', 'kk', 'c09_ans_u8_u16_p4', tq=600),
         L('c09_chain', 'k_c09_chain_{cfg}', ['u8_u16_p4', 'u8_u16_p8', 'u16_u32_p12', 'u32_u64_p24']),
         K('c09_quantizer_wide_symbol', 'models', 'quantizer_wide_symbol_none', tq=600),
         K('c09_uniform_wide_symbol_p8', 'models', 'uniform_u8_p8', tq=600), K('c09_uniform_wide_symbol_p5', 'models', 'uniform_u8_p5', tq=600),
         K('c09_contiguous_outside_none', 'models', 'fixed_contiguous_p4', tiers=('thorough',), tt=3600),
     ],
-    bounds='one failing encode (impossible symbol, or write fault at a symbolic point of a bounded sink) after one successful encode from ANY invariant state; observational oracle: '
+    bounds='c09_ans_step: one failing encode (impossible symbol or write fault) from ANY invariant state leaves the raw parts unchanged (all widths, fully symbolic); c09_ans / its CBMC twin: '
+           'one failing encode (impossible symbol, or write fault at a symbolic point of a bounded sink) after one successful encode from ANY invariant state; observational oracle: '
            'the earlier symbol still decodes and a further encode/decode round trip succeeds; out-of-support symbols over the full symbol type for every model family (Kani harnesses)',
     outside='histories longer than the inductive step; models over symbol types wider than the harness instantiations',
     assumptions=['Inv_ans / Inv_chain on symbolic pre-states'],
@@ -328,7 +340,7 @@ PROPS['C18'] = dict(
 PROPS['C07'] = dict(
     obligations=[K('c07_ans_seek_u8_u16_p4', 'rangek', 'ans_seek_u8_u16_p4', tq=1200), K('c07_ans_seek_reversed_u8_u16_p4', 'rangek', 'ans_seek_reversed_u8_u16_p4', tq=1200),
                  L('c07_range_seek_k1', 'k_c07_range_seek_k1_{cfg}', ['u8_u16_p4', 'u16_u32_p12', 'u32_u64_p24'], ['u8_u16_p4', 'u8_u16_p8', 'u16_u32_p12', 'u32_u64_p24'], fixes=range_fixes),
-                 L('c07_range_seek_from_inverted', 'k_c07_range_seek_inv_{cfg}', ['u8_u16_p4', 'u16_u32_p12', 'u32_u64_p24'], ['u8_u16_p4', 'u8_u16_p8', 'u16_u32_p12', 'u32_u64_p24'], fixes=range_fixes),
+                 L('c07_range_seek_from_inverted', 'k_c07_range_seek_inv_{cfg}', ['u8_u16_p4', 'u16_u32_p12', 'u32_u64_p24'], ['u8_u16_p4', 'u8_u16_p8', 'u16_u32_p12', 'u32_u64_p24'], fixes=range_fixes_small),
                  L('c07_range_seek_k2', 'k_c07_range_seek_k2_{cfg}', [], ['u8_u16_p4', 'u8_u16_p8', 'u16_u32_p12'], cap=dict(quick=90, thorough=900), explore_cap=dict(quick=300, thorough=3000))],
     bounds='ANS: k <= 2 symbols into the real Vec, snapshots at every boundary, borrowed / consuming / reversed seekable decoders, two seeks in a symbolic order; '
            'range coder: k <= 2 symbols from the fresh encoder or any Normal raw state, snapshots at every boundary incl. while words are held back, the library Cursor over a slice, two seeks in symbolic order',
